@@ -415,6 +415,9 @@ func srvScript(t *testing.T, r *Rng, s *Stream, c *SrvConf, replaySteps []script
 			if h.lastOff != nil && h.staticIP == nil {
 				env.Resp[IPU32(h.lastOff)] = &Responder{MAC: net.HardwareAddr{6, 6, 8, 0, 0, 1}, Delay: 20 * time.Millisecond}
 				s.Count("responder-appears")
+				line := fmt.Sprintf("note resp t=%d ip=%s mac=%s delay=%d", time.Now().UnixNano(), IPStr(h.lastOff), Hex(net.HardwareAddr{6, 6, 8, 0, 0, 1}), int64(20*time.Millisecond))
+				s.Op(line, "ok", false)
+				mon.hist = append(mon.hist, line) // part of the history: replays and shrinking reinstall the responder at this instant
 			}
 			continue
 		}
